@@ -16,8 +16,12 @@ def cstr(s):
 
 def jobs(tier):
     J = []
+    for sub, first in (NUM_STARTS if tier == 'thorough' else []):   # > 7 min per job even in one chunk: thorough tier only
+        for i, pf in enumerate(NUM_PREFIXES[sub]):
+            J.append(dict(id='number_%d_%02d' % (sub, i), harness='h_number', props=['C02'], unwind=max(9, len(pf) + 3 + 5), defs=dict(KIND=1, SUB0=sub, PRE=cstr(first), PFX=cstr(pf), NS=3), timeout=2400, mem_gb=6,
+                          desc='parse_number (one chunk): accepts exactly the RFC 8259 number grammar, integer vs floating kind, token end', bound='number = %s%s + 3 symbolic bytes' % (first, pf)))
     if tier != 'thorough':
-        return J   # 2-15 min of symbolic execution per job: thorough tier only (DESIGN 6.3)
+        return J   # split-delivery jobs: 2-15 min of symbolic execution per job, thorough tier only (DESIGN 6.3)
     ns = 3 if tier == 'thorough' else 2
     for i, pf in enumerate(STR_PREFIXES):
         J.append(dict(id='split_str_%02d' % i, harness='h_split', props=['C03'], unwind=max(9, len(pf.replace('\\\\', '\\')) + ns + 4), defs=dict(KIND=0, SUB0=0, PFX=cstr(pf), NS=ns), timeout=900, mem_gb=6,
